@@ -141,7 +141,7 @@ var vC04Decls = []string{
 	`(def arr3 [5 6 9001]) (aget arr3 (quote (quote 0 2)))`,
 	`(eval (quote (begin 1 2 9001))) (eval (quote (quote 1 2 3 9001)))`,
 	`(defn ev [x] (eval x)) (ev (quote (quote 7 9001))) (ev (quote (quote 7 8 9001)))`,
-	`(def hk (hash a: 9001)) (hget hk (quote (quote b a)))`,
+	`(def hk (hash a: 9001)) (hget hk (quote a)) (eval (quote (quote hk 9001)))`,
 	`(expectError "Error calling 'first': first called on empty array" (first [])) 9001`,
 	// closures stored in data, called after the creator returned
 	`(defn mk [n] (fn [] (set n (+ n 1)) n)) (def c (mk 9001)) (c) (c)`,
